@@ -87,10 +87,9 @@ Theorem unix_close_with_both_parked defer s a b :
 Proof.
   intros R Hr Hs. destruct (creach_inv defer s R) as [H1 H2 H3 H4 H5 H6 H7].
   destruct (H6 Hr) as (Hc & Hrr & Hcr). destruct (H7 Hs) as (_ & Hrw & Hcw).
-  destruct s as [cl sc fd n rr rw pr ps cbr cbw er cw]. cbn in *. subst.
-  destruct sc; [discriminate|].
-  unfold cstep, loop_remove, finish_close, wake_parked; cbn.
-  destruct defer, a, b; cbn; auto 10.
+  destruct s as [cl sc fd n rr rw pr ps cbr cbw er cw]. cbn in H1, H2, H3, H4, H5, Hc, Hrr, Hrw, Hcr, Hcw, Hr, Hs.
+  subst.
+  destruct defer, fd, a, b; vm_compute; auto 10.
 Qed.
 
 (* the pinned order (before commit e49bd95) *)
